@@ -309,7 +309,7 @@ def run(ctx):
                        (2100, 3, 31), (2199, 11, 30), (2000, 1, 31),
                        (2399, 8, 31), (1999, 12, 31), (2299, 1, 29)):
         sample_serials.append(serial_of(datetime.date(y, mth, dd)))
-    sample_serials = [n for n in sample_serials if n > 61]
+    sample_serials = [n for n in sample_serials if n >= 61] + [61, 62, 89, 91]
     for n in sample_serials:
         d = date_of(n)
         for _ in range(16 if not thorough else 60):
@@ -330,7 +330,7 @@ def run(ctx):
 
     # ---- ordered pairs: DAYS, subtraction, DATEDIF, YEARFRAC ------------------------
     pool = sorted(set(
-        [rng.randint(62, 80000) for _ in range(40 if not thorough else 140)]
+        [61, 62, 91] + [rng.randint(61, 80000) for _ in range(40 if not thorough else 140)]
         + [serial_of(datetime.date(y, m, dd)) for y, m, dd in (
             (2019, 1, 31), (2019, 2, 28), (2019, 3, 31), (2020, 1, 31),
             (2020, 2, 29), (2020, 3, 1), (2020, 12, 31), (2021, 1, 1),
